@@ -1947,13 +1947,25 @@ func (node OnDup) walkSubtree(visit Visit) error {
 	return Walk(visit, UpdateExprs(node))
 }
 
+// writeQuotedID writes an identifier between the given quote characters. A quote character
+// inside the name is doubled, the way the tokenizer reads it (scanLiteralIdentifier) and the
+// way formatIDForDialect escapes names it has to quote itself.
+func writeQuotedID(buf *TrackedBuffer, quote byte, name string) {
+	buf.WriteByte(quote)
+	for i := 0; i < len(name); i++ {
+		buf.WriteByte(name[i])
+		if name[i] == quote {
+			buf.WriteByte(quote)
+		}
+	}
+	buf.WriteByte(quote)
+}
+
 // FormatForDialect formats the node for specified dialect
 func (node ColIdent) FormatForDialect(dialect dialect.Dialect, buf *TrackedBuffer) {
 	if node.quote != 0 {
-		// print as is in quotes
-		buf.WriteByte(node.quote)
-		buf.Write([]byte(node.val))
-		buf.WriteByte(node.quote)
+		// print in the quotes it was written in
+		writeQuotedID(buf, node.quote, node.val)
 	} else if node.unquote {
 		buf.Write([]byte(node.val))
 	} else {
@@ -1973,10 +1985,8 @@ func (node ColIdent) walkSubtree(visit Visit) error {
 // FormatForDialect formats the node for specified dialect
 func (node TableIdent) FormatForDialect(dialect dialect.Dialect, buf *TrackedBuffer) {
 	if node.quote != 0 {
-		// print as is in quotes
-		buf.WriteByte(node.quote)
-		buf.Write([]byte(node.v))
-		buf.WriteByte(node.quote)
+		// print in the quotes it was written in
+		writeQuotedID(buf, node.quote, node.v)
 	} else {
 		formatIDForDialect(dialect, buf, node.v, strings.ToLower(node.v))
 	}
@@ -1985,10 +1995,8 @@ func (node TableIdent) FormatForDialect(dialect dialect.Dialect, buf *TrackedBuf
 // Format formats the node.
 func (node TableIdent) Format(buf *TrackedBuffer) {
 	if node.quote != 0 {
-		// print as is in quotes
-		buf.WriteByte(node.quote)
-		buf.Write([]byte(node.v))
-		buf.WriteByte(node.quote)
+		// print in the quotes it was written in
+		writeQuotedID(buf, node.quote, node.v)
 	} else {
 		formatID(buf, node.v, strings.ToLower(node.v))
 	}
